@@ -42,8 +42,8 @@ type World struct {
 	Prog     *ssa.Program
 	SSA      map[string]*ssa.Package // module packages by path
 	CG       *callgraph.Graph
-	Whole    bool                    // whole-program bodies available (thorough)
-	ModFuncs []*ssa.Function         // all functions (incl. anonymous, methods) whose source is in the module
+	Whole    bool            // whole-program bodies available (thorough)
+	ModFuncs []*ssa.Function // all functions (incl. anonymous, methods) whose source is in the module
 	fnDecl   map[*ssa.Function]ast.Node
 	NumFuncs int // number of ssa functions with bodies in the program
 }
